@@ -294,6 +294,9 @@ def run(pid, tier):
                               "and their results judged against Denote.tla" % (len(small), len(traces), len(allp)))
     finally:
         common.rmwork(work)
+    # the same properties on the shipped forms and on the repository's own tests
+    import real_checks
+    real_checks.run(pid, tier, rep, cov, owner_of)
     assumptions = ["generated programs are a seeded sample, not all programs; values are 0/1",
                    "the tracer observes the solver through wrappers on its methods (harness/tracer.py)",
                    "natural order of names computed by harness/natsort.py"]
